@@ -73,7 +73,7 @@ def run_case(case):
                 relayouts += 1
                 sc.after_step("relayout %s" % layout)
             before = sc.notes_digest()
-            op = rng.choice(["commit", "commit", "partial", "amend", "rebase", "cherry", "squash"])
+            op = rng.choice(["commit", "commit", "partial", "amend", "rebase", "rebase-dr", "cherry", "squash"])
             where = "op %d %s after %s" % (k, op, layout)
             if op == "commit":
                 sc.do_edit(); sc.commit_all("c")
@@ -84,7 +84,7 @@ def run_case(case):
                 sc.do_edit(author=rng.choice(sc.sessions), kinds=["ins", "rep"]); sc.op_amend()
             else:
                 sc.commit_all("pre")
-                {"rebase": sc.op_rebase, "cherry": sc.op_cherry_pick, "squash": sc.op_squash_merge}[op]()
+                {"rebase": sc.op_rebase, "rebase-dr": sc.op_rebase_delete_recreate, "cherry": sc.op_cherry_pick, "squash": sc.op_squash_merge}[op]()
             if sc.notes_digest() != before:
                 written_after += 1
             sc.after_step(where)
